@@ -6,6 +6,7 @@ Decides C04, C05, C06 (Python clauses), C09 and the value level of C11.
 from __future__ import annotations
 
 import contextlib
+import copy
 import io
 import json
 import math
@@ -65,9 +66,16 @@ def draw_init(rng, d, p):
     elif r < 0.8:
         A = np.array([[rng.uniform(-1, 1) for _ in range(n)] for _ in range(n)])
         P = A @ A.T + 0.1 * np.eye(n)
-    else:
+    elif r < 0.9 or n < 2:
         P = np.eye(n)
         tags.append("identity_start")
+    else:
+        # equal variances, equal correlations: a repeated eigenvalue whose eigenspace is not axis aligned
+        a, b = rng.choice([0.5, 1.0, 2.0]), rng.choice([0.25, -0.1, 0.5])
+        P = a * np.eye(n) + b * np.ones((n, n))
+        if float(np.linalg.eigvalsh(P)[0]) <= 0.05:
+            P = a * np.eye(n) + 0.25 * np.ones((n, n))
+        tags.append("equicorrelated_start")
     P = (P + P.T) / 2
     return x, P, tags
 
@@ -371,12 +379,19 @@ class Harness:
         self.step = 0
 
     def fresh_filter(self):
-        """another filter object compiled from the same definition and configuration (built once per run, used only by hand)"""
-        if getattr(self, "_fresh", None) is None:
+        """a filter object from the same definition and configuration that has never been called: compiled once per run, and
+        every by-hand replay gets its own copy of that pristine object (arrays, dicts and caches it owns are copied; compiled
+        functions are shared), so neither the ticks nor earlier replays can have left anything in it"""
+        if getattr(self, "_pristine", None) is None:
             b, config = self._build
             with contextlib.redirect_stdout(io.StringIO()):
-                self._fresh = self.python.compile_ekf(b["model"], b["process_noise"], b["sensor_models"], b["sensor_noises"], b["calibration_map"], config=config)
-        return self._fresh
+                self._pristine = self.python.compile_ekf(b["model"], b["process_noise"], b["sensor_models"], b["sensor_noises"], b["calibration_map"], config=config)
+        try:
+            return copy.deepcopy(self._pristine)
+        except Exception:  # noqa: BLE001 - an object that cannot be copied: compile again
+            b, config = self._build
+            with contextlib.redirect_stdout(io.StringIO()):
+                return self.python.compile_ekf(b["model"], b["process_noise"], b["sensor_models"], b["sensor_noises"], b["calibration_map"], config=config)
 
     def _sibling(self, python, b, d, when):
         """build (and keep alive) other filters: same ui.Model object with shifted calibration and noise; and a different
@@ -710,6 +725,13 @@ def initial_estimate(h, init, which="state"):
         st = h.ekf.State.from_data(np.array([[x[s_]] for s_ in h.S], dtype=sd))
     P = np.array([[xf(v) for v in row] for row in init["covariance"]], dtype=float)
     cov = h.ekf.Covariance.from_data(P if cd == "float64" else np.array(P, dtype=cd))
+    # the oracles below take the estimate from these objects: they must hold what the caller supplied
+    if cd == "float64" and P.size and float(np.max(np.abs(np.array(cov.data, dtype=float) - P))) > 1e-12 * max(1e-300, float(np.max(np.abs(P)))):
+        for prop in ("C04", "C05", "C09"):
+            h.res.add(prop, "input_covariance_altered", f"{prop}:py:input_covariance_altered", 0, f"Covariance.from_data holds the supplied matrix {P.tolist()}", f"{np.array(cov.data).tolist()}")
+    if sd == "float64" and not np.array_equal(np.array(st.data, dtype=float)[:, 0], np.array([x[s_] for s_ in h.S])):
+        for prop in ("C04", "C05"):
+            h.res.add(prop, "input_state_altered", f"{prop}:py:input_state_altered", 0, f"the State object holds the supplied values {[x[s_] for s_ in h.S]}", f"{np.array(st.data).T.tolist()}")
     return st, cov
 
 
